@@ -232,8 +232,8 @@ func c20ApplyDirect(app *simapp.SimApp, ctx sdk.Context, e c20Entry) error {
 		return ck.CreateClient(ctx, string(e.Data["name"]), cs, cons)
 	case "setrules":
 		var rules []string
-		if len(e.Data["rules"]) > 0 {
-			rules = strings.Split(string(e.Data["rules"]), "\n")
+		if err := json.Unmarshal(e.Data["rules"], &rules); err != nil {
+			return err
 		}
 		cctx, write := ctx.CacheContext()
 		if err := app.TIBCKeeper.RoutingKeeper.SetRoutingRules(cctx, rules); err != nil {
